@@ -585,6 +585,16 @@ func main() {
 	_, mf := parseFile(mpath)
 	retTypes := stringMapLit(findVar(mf, "functionReturnTypes", mpath), "functionReturnTypes")
 	legacyTops := stringSliceLit(findVar(mf, "ContextTopLevels", mpath), "ContextTopLevels")
+	// migrate.go separateFrom(wrapped, following): keeps @(...) around a bare identifier that the following text would extend
+	separates := false
+	for _, d := range mf.Decls {
+		if fd, ok := d.(*ast.FuncDecl); ok && fd.Recv == nil && fd.Name.Name == "separateFrom" {
+			separates = true
+		}
+	}
+	if separates {
+		requireFuncs(mf, mpath, map[string]int{"separateFrom": 2})
+	}
 	requireFuncs(mf, mpath, map[string]int{"MigrateTemplate": 2, "migrateLegacyTemplateAsString": 2, "migrateExpression": 3,
 		"inferType": 1, "isValidIdentifier": 1, "wrapRawExpression": 3, "wrap": 2, "MigrateStringLiteral": 1})
 	epath := filepath.Join(*repo, "flows/expressions.go")
@@ -635,6 +645,7 @@ func main() {
 	}
 	sb.WriteString("].\n\n")
 	fmt.Fprintf(&sb, "(* functions.go paramDecremented: `if asInt < 0 { return param }` present? *)\nDefinition decremented_keeps_negative : bool := %v.\n\n", keepsNeg)
+	fmt.Fprintf(&sb, "(* migrate.go: func separateFrom(wrapped, following) present? *)\nDefinition separates_identifiers : bool := %v.\n\n", separates)
 	sb.WriteString("(* visitor.go: const ( precConcatenation = iota + 1; ... ) *)\n")
 	for _, n := range precNames {
 		cn := "prec_" + strings.ToLower(n[4:])
